@@ -92,9 +92,48 @@ def observe(globs, extra_skip=()):
 
 
 def run_pair(src, text, seconds=5, env_factory=None):
-    """Returns (result_src, result_conv); a result is dict(stdout, globals, exc)."""
+    """Returns (result_src, result_conv); a result is dict(stdout, globals, exc).
+    Both programs run in a forked child of this process: a program on which the INTERPRETER itself dies (CPython 3.13.0
+    segfaults on some comprehension / class-body scripts) is reported as an exception of that program instead of taking a
+    pool worker - and with it the whole check - down."""
+    import json
+    r, w = os.pipe()
+    pid = os.fork()
+    if pid == 0:
+        code = 1
+        try:
+            os.close(r)
+            with os.fdopen(w, "w") as out:
+                for one in (src, text):
+                    res = _run_pair_here(src, text, seconds, env_factory, only=one is text)
+                    out.write(json.dumps(res) + "\n")
+                    out.flush()
+            code = 0
+        finally:
+            os._exit(code)
+    os.close(w)
+    with os.fdopen(r) as inp:
+        data = inp.read()
+    _, status = os.waitpid(pid, 0)
+    lines = [l for l in data.split("\n") if l]
+    got = []
+    for l in lines[:2]:
+        try:
+            got.append(json.loads(l))
+        except ValueError:
+            break
+    how = f"signal {os.WTERMSIG(status)}" if os.WIFSIGNALED(status) else f"exit status {os.WEXITSTATUS(status)}"
+    while len(got) < 2:
+        got.append({"stdout": "", "globals": {}, "exc": "INTERPRETER-CRASH: " + how})
+    return got[0], got[1]
+
+
+def _run_pair_here(src, text, seconds=5, env_factory=None, only=None):
+    """only=False: just the script, only=True: just the converted text (returns one result)"""
     res = []
     for mode, code in (("exec", src), ("eval", text)):
+        if only is not None and only != (mode == "eval"):
+            continue
         g = {"__name__": "__main__"}
         if env_factory is not None:
             g.update(env_factory())
@@ -119,7 +158,7 @@ def run_pair(src, text, seconds=5, env_factory=None):
         skip = tuple(env_factory().keys()) if env_factory is not None else ()
         res.append({"stdout": _noaddr(buf.getvalue()), "globals": {k: _noaddr(v) for k, v in observe(g, skip).items()},
                     "exc": exc})
-    return res
+    return res[0] if only is not None else res
 
 
 def _work(job):
